@@ -27,7 +27,7 @@ def check_c02(out_dir):
     distinct = set()
     for m in _models(out_dir):
         name, case = m['file'], m['case']
-        buf = open(os.path.join(out_dir, 'files', name + '.shp'), 'rb').read()
+        buf = open(os.path.join(out_dir, 'files', m.get('shp_file', name + '.shp')), 'rb').read()
         counters['files'] += 1
         counters['bytes'] += len(buf)
         tname = shpref.NAMES.get(m['type'], '?')
@@ -76,7 +76,7 @@ def check_c04(out_dir):
     distinct = set()
     for m in _models(out_dir):
         name, case = m['file'], m['case']
-        shp = open(os.path.join(out_dir, 'files', name + '.shp'), 'rb').read()
+        shp = open(os.path.join(out_dir, 'files', m.get('shp_file', name + '.shp')), 'rb').read()
         shx = open(os.path.join(out_dir, 'files', name + '.shx'), 'rb').read()
         counters['files'] += 1
         tname = shpref.NAMES.get(m['type'], '?')
